@@ -307,6 +307,22 @@ FailLevel(c, lv) ==
 \* C05, the rejecting side: once the failing level has consumed a bare `--` and has a positional that takes any number of
 \* values after it (the `last` one if there is one), no tail token can be "unknown": UnknownArgument / InvalidSubcommand
 \* would mean a tail token was read as a flag, option or subcommand.  (Declared value terminators stay sentinels.)
+\* C05, last sentence: "flags and options given before the `--` keep exactly the values they would have had without the
+\* tail": at the level that consumed the `--`, every flag / option has the occurrences it has when the line stops at the `--`
+\* (judged when that shorter line is itself accepted and names the same chain)
+P05Keep(def, argv, obs, top) ==
+  LET esc == EscapeAt(top) IN
+  (obs.outcome = "Ok" /\ ~def.s.ignore_errors /\ esc.at # 0 /\ esc.depth <= Len(obs.chain)) =>
+     LET pre == Run(def, SubSeq(argv, 1, esc.at))
+         cs == CmdChain(Build(def, NoInherit), obs.chain, 1)
+     IN (pre.outcome = "Ok" /\ Len(pre.chain) >= esc.depth /\ esc.depth <= Len(cs)) =>
+          LET c == cs[esc.depth] E == obs.chain[esc.depth] P == pre.chain[esc.depth] IN
+          \A i \in 1..Len(c.args) :
+             LET a == c.args[i] IN
+             (~a.positional /\ ~a.global) =>
+                LET inE == EHas(E, a.id) /\ EGet(E, a.id).src = "cli"
+                    inP == EHas(P, a.id) /\ EGet(P, a.id).src = "cli"
+                IN inE = inP /\ (inE => EGet(E, a.id).occ = EGet(P, a.id).occ)
 P05Err(def, obs, top) ==
   (obs.outcome = "Err" /\ ~def.s.ignore_errors /\ ~top.panic /\ obs.kind \in {"UnknownArgument", "InvalidSubcommand"}) =>
      LET f == FailLevel(Build(def, NoInherit), top)
